@@ -195,8 +195,10 @@ func (o *Oracle) processRequest(priv *keys.PrivateKey, req request) error {
 		if !errors.Is(err, storage.ErrKeyNotFound) {
 			return err
 		}
-		// The only reason tx can be not found is that it hasn't been persisted from DAO yet.
-		h = currentHeight
+		// The only reason tx can be not found is that its block is still being
+		// processed (the request is announced by the native contract before the
+		// block's changes and the new height become visible), that's the next one.
+		h = currentHeight + 1
 	}
 	h += vubInc // Main tx is only valid for RequestHeight + ValidUntilBlock.
 	tx, err := o.CreateResponseTx(int64(req.Req.GasForResponse), h, resp)
